@@ -1981,3 +1981,4 @@ async fn d48_checkpoint_opened_next_to_the_live_store_reads_the_live_stores_bloc
 	assert_eq!(got, want, "D48: the checkpoint database answers with blocks cached by the live store");
 	assert_eq!(point.as_deref(), Some("x"), "D48: a point read in the checkpoint database is answered from a block the live store cached under the same (table id, offset)");
 }
+
